@@ -2,24 +2,24 @@
 """Regenerates /verif/MANIFEST.json (kept in git; run after changing the check list)."""
 import json, os
 ROOT = os.path.dirname(os.path.dirname(os.path.abspath(__file__)))
-fix_commits = ["4dc4a82", "76fa0f3", "c109061", "6252e1d", "a1ddfb0", "ed5d6fe", "f436aa0"]
+fix_commits = ["4dc4a82", "76fa0f3", "c109061", "6252e1d", "a1ddfb0", "ed5d6fe", "f436aa0", "4e784a0"]
 seq = "SEQ engine: model-based PBT over API histories (proptest byte vectors -> decoder -> step interpreter on real happylock code instantiated with auditing raw locks)"
 conc = "CONC engine: generated thread programs x generated schedules (harness-owned baton scheduler at raw-lock-operation granularity, both RwLock wake policies)"
 types = "TYPES engine: grammar-generated client programs, rustc verdict on twin/offending pairs, auto traits differential against std"
 checks = {
- "C01": ("conc", "exploration", "generated programs x generated schedules, deadlock / self-wait / no-progress oracles (property-based, schedule fuzzing)",
+ "C01": ("conc+types", "exploration", "generated programs x generated schedules, deadlock / self-wait / no-progress oracles (property-based, schedule fuzzing)",
    "Deadlock freedom is a for-all-schedules, for-all-programs claim; the check explores tens of thousands of (program, schedule) pairs per run with an exact deadlock oracle (no timers). It cannot prove absence; it reaches the arrangements and interleavings the suite never runs.",
-   "Schedules are explored at raw-lock-operation granularity with one logical thread running at a time; the verification raw locks are the ground truth for 'waits' and 'holds'; bounded programs (1-4 threads, 1-3 acquisitions, 2-5 leaves)."),
+   "Schedules are explored at raw-lock-operation granularity with one logical thread running at a time; the verification raw locks are the ground truth for 'waits' and 'holds'; bounded programs (1-4 threads, 1-3 acquisitions, 2-5 leaves). The single-thread clause about collections changed after the duplicate check is decided at compile time by 14 generated twin/offending programs (TYPES engine)."),
  "C02": ("seq+conc", "exploration", "property-based: held-at-use, routing, shadow-version continuity oracles over generated shapes and schedules",
    "Mutual exclusion and per-position routing are checked at every dereference against the owner table (independent of schedule luck) over all collection shapes; CONC adds adversarial switches inside sections.",
    "Owner table of the verification raw locks is the ground truth; payload ids identify leaves; one logical thread runs at a time."),
- "C03": ("seq", "exploration", "model-based stateful PBT over acquire/release histories; oracle at first raw op of every acquisition and at every key hand-back",
+ "C03": ("seq+conc", "exploration", "model-based stateful PBT over acquire/release histories; oracle at first raw op of every acquisition and at every key hand-back",
    "Total allocation quantifies over all API compositions incl. error paths; generated histories with an exact held-set oracle reach those compositions.",
    "Sequential histories (1-2 threads, <= 14 steps); held-set read from the auditing raw locks."),
- "C04": ("seq", "exploration", "model-based PBT: held multiset vs. leaf multiset of the spec after every acquisition, try_* never waits, closure count",
+ "C04": ("seq+conc", "exploration", "model-based PBT: held multiset vs. leaf multiset of the spec after every acquisition, try_* never waits, closure count",
    "All-or-nothing is checked after every generated acquisition over kinds x containers x nestings x pre-held patterns, including the rollback of every failing position.",
    "Reference semantics of a collection spec (flattened leaves) is the harness's own model; phantom holders emulate other threads in quiescent states."),
- "C05": ("seq", "exploration", "release audit in the raw locks (foreign / double / wrong-mode / not-held), release parity per call, all-free-at-end",
+ "C05": ("seq+conc", "exploration", "release audit in the raw locks (foreign / double / wrong-mode / not-held), release parity per call, all-free-at-end",
    "A wrong release is silent with parking_lot; the auditing raw lock makes every release checkable on every generated path.",
    "Audit compares every raw unlock with the owner table; leaked (mem::forget) holds are tracked by the model."),
  "C06": ("seq", "exploration", "model-based stateful PBT: ThreadKey::get() probed after every step and inside every closure against a key-alive model",
@@ -28,13 +28,13 @@ checks = {
  "C07": ("seq+types", "exploration", "differential against a reference duplicate model over generated member lists (random + exhaustive <= 5 over 4 leaves); rustc verdicts for unchecked ctors",
    "Exactness is a for-all-inputs claim; the exhaustive slice is complete for lists <= 5 over 4 leaves, the random part covers nesting and wrappers; the compile-time half is decided by generated twin/offending programs.",
    "Reference model: a unit is a leaf or an owned collection; zero-sized owned collections sharing an address are not generated."),
- "C08": ("seq", "exploration", "metamorphic: blocking acquisition sequences of differently arranged sorting collections must agree pairwise (acyclic precedence), be stable, keep owned groups contiguous",
+ "C08": ("seq+conc", "exploration", "metamorphic: blocking acquisition sequences of differently arranged sorting collections must agree pairwise (acyclic precedence), be stable, keep owned groups contiguous",
    "Acquisition order is invisible with real locks; the tracing raw lock exposes it and the metamorphic relation needs no knowledge of the actual sort key.",
    "Only relative order is asserted (not address order); sequences come from the trace of blocking raw acquisitions."),
  "C09": ("conc", "exploration", "generated contenders x schedules; oracle: nothing held (outside the awaited lock's owned group) whenever a retrying call's blocking request is not grantable; completion under run-to-block",
    "Hold-and-wait depends on which member is contended when; the scheduler-owned exploration checks the condition at every blocking point.",
    "Retry depth bounded by the schedule prefix (<= 48 choices) then run-to-block; 'eventually completes' is checked as bounded liveness."),
- "C10": ("seq", "exploration", "model-based stateful PBT with a 3-state poison model per wrapper (Clean / Poisoned / Unspecified)",
+ "C10": ("seq+conc", "exploration", "model-based stateful PBT with a 3-state poison model per wrapper (Clean / Poisoned / Unspecified)",
    "Poisoning is a product of hold kinds x panic points x clear x observers; the model is compared after every step and at every member position.",
    "A panic under a shared hold leaves the state unspecified (the property is one-directional there); histories never mem::forget a Poisonable guard."),
  "C11": ("seq+conc", "exploration", "panic injection at every kind of critical section; held-set / release-parity / key oracles; CONC: waiters proceed",
@@ -71,8 +71,9 @@ m = {
  },
  "engines": [
    {"name": "seq", "path": "harness/src/{interp,engine,gen,world,exec,vlock}.rs", "serves_properties": ["C02","C03","C04","C05","C06","C07","C08","C10","C11","C12","C13","C17"], "kind_free_text": seq},
-   {"name": "conc", "path": "harness/src/{exec,engine,gen}.rs", "serves_properties": ["C01","C02","C09","C11"], "kind_free_text": conc},
-   {"name": "types", "path": "harness/src/tyeng.rs", "serves_properties": ["C07","C14","C15"], "kind_free_text": types},
+   {"name": "conc", "path": "harness/src/{exec,engine,gen}.rs", "serves_properties": ["C01","C02","C03","C04","C05","C08","C09","C10","C11"], "kind_free_text": conc},
+   {"name": "types", "path": "harness/src/tyeng.rs", "serves_properties": ["C01","C07","C14","C15"], "kind_free_text": types},
+   {"name": "fuzz", "path": "fuzz/fuzz/fuzz_targets/{fuzz_seq,fuzz_conc}.rs, tools/fuzz.sh", "serves_properties": ["C01","C02","C03","C04","C05","C06","C08","C09","C10","C11","C13","C17"], "kind_free_text": "libFuzzer (cargo-fuzz, ASan) over the same byte decoders and oracles; thorough tier only, amplification"},
    {"name": "drops", "path": "harness/src/{drops,quarantine}.rs", "serves_properties": ["C16"], "kind_free_text": "typed construction/destruction scenarios with drop-counting payloads"},
  ],
  "checks": [],
